@@ -129,6 +129,16 @@ func (x *Exec) attributeListingDiff(c *Client, lib, mod string, st *Step) ([]str
 	a := x.m.Allocs[c.Idx]
 	switch {
 	case a == nil && lib != "none":
+		everHad := false
+		for _, g := range x.m.Gone {
+			everHad = everHad || g.Client == c.Idx
+		}
+		if !everHad {
+			// this 5-tuple never allocated, yet the server finds an allocation for it: somebody
+			// else's. Its Send / ChannelData would leave through a relay toward peers it never authorised.
+			return []string{"C04", "C01"}, "allocation-of-another-five-tuple"
+		}
+
 		return []string{"C06", "C15", "C04"}, "allocation-outlives-model"
 	case a != nil && lib == "none":
 		return []string{"C06", "C14", "C04"}, "allocation-missing"
